@@ -49,6 +49,7 @@ ad.ensures("appended_at_the_end", lambda a, ret, st: z3.And(
                                            z3.Select(thetas(a.self).cols, z3.Int("k!ad")) == z3.Select(thetas(a.old.self).cols, z3.Int("k!ad"))))))
 ad.ensures("declared_size_unchanged_and_respected", lambda a, ret, st: z3.And(nth(a.self) == nth(a.old.self), thetas(a.self).length <= nth(a.self)))
 ad.modifies_fields = ["thetas"]
+ad.inline = True  # three-line body: executed at call sites (load_h5), the contract above is proved for it separately
 
 # ---- combine
 cb = contract(TH + ".combine", params=[("self", T_holder()), ("other", T_holder())], returns=T_holder())
@@ -180,3 +181,50 @@ em.loop("for#0", invariant=lambda v: [
                                                       z3.Select(v.chain_ids.seq.cols, z3.Int("p!ei")) == chain_lab(v.theta_holders.seq.cols, v.it, z3.Int("p!ei"))),
                          patterns=[z3.Select(v.chain_ids.seq.cols, z3.Int("p!ei"))]))],
     use=lambda v: unfold_lab(v.theta_holders.seq.cols, v.it), types={"chain_ids": TSeq(TInt)})
+
+
+# ---- persistence: the real save_h5 / load_h5 on a holder of n samples of a generic conforming sample type (scenarios/c10.py);
+# n is CONCRETE per variant (1, 2, 11, 12: beyond ten samples string order and numeric order of the group names differ), every
+# parameter value and array shape is symbolic
+from pyvc.spec import TStr, TReal, TPyList
+from pyvc.lib.arrays import TArr
+from pyvc.values import Real
+GT = "scenarios.c10.GenericTheta"
+
+
+def T_gtheta():
+    return TObj(GT, fields={"A": TArr(Real, 2), "s": TReal, "B": TArr(Real)})
+
+
+def T_full_holder(n):
+    return TObj(TH, fields={"_n_thetas": TInt, "thetas": TPyList(*[T_gtheta() for _ in range(n)])})
+
+
+def same_arr(x, y):
+    k, c = z3.Ints("k!sa c!sa")
+    if x.ndim == 1:
+        return z3.And(x.shape[0] == y.shape[0], z3.ForAll([k], z3.Implies(z3.And(k >= 0, k < x.shape[0]), z3.Select(x.data, k) == z3.Select(y.data, k))))
+    return z3.And(x.shape[0] == y.shape[0], x.shape[1] == y.shape[1],
+                  z3.ForAll([k, c], z3.Implies(z3.And(k >= 0, k < x.shape[0], c >= 0, c < x.shape[1]), z3.Select(z3.Select(x.data, k), c) == z3.Select(z3.Select(y.data, k), c))))
+
+
+hr = contract("scenarios.c10.holder_roundtrip", params=[("h", T_full_holder(2)), ("fn", TStr)])
+hr.variants = [("n%d" % n, [("h", T_full_holder(n)), ("fn", TStr)]) for n in (1, 2, 11, 12)]
+hr.requires(lambda a: [a.h.fields["_n_thetas"] == len(a.h.fields["thetas"].items)])  # a complete chain
+
+
+def _hr_post(a, ret, st):
+    src = a.h.fields["thetas"].items
+    got = ret.fields["thetas"]
+    items = got.items if isinstance(got, PyList) else None
+    out = [("declared_size_preserved", ret.fields["_n_thetas"] == a.h.fields["_n_thetas"]),
+           ("number_of_samples_preserved", z3.BoolVal(items is not None and len(items) == len(src)))]
+    if items is None or len(items) != len(src):
+        return out
+    for k, (t0, t1) in enumerate(zip(src, items)):
+        out.append(("sample_%d_in_place_and_identical" % k, z3.And(same_arr(t1.fields["A"], t0.fields["A"]), t1.fields["s"] == t0.fields["s"],
+                                                                   same_arr(t1.fields["B"], src[0].fields["B"]))))
+    return out
+
+
+hr.ensures("lossless_in_order", _hr_post)
